@@ -18,6 +18,37 @@ ASSUMPTIONS = [
 ]
 
 
+_PINS = None
+
+
+def pins():
+    """recorded manifestation of known finding D1 on the pinned corpus"""
+    global _PINS
+    if _PINS is None:
+        import json, os
+        from .. import VERIF_DIR
+        path = os.path.join(VERIF_DIR, "regress", "C02", "D1-pins.json")
+        data = json.load(open(path)) if os.path.exists(path) else {"pins": {}, "clean": []}
+        _PINS = (data["pins"], set(data["clean"]))
+    return _PINS
+
+
+def d1_known(ctx, case, text, kind, **details):
+    """finding D1 with the pinned-corpus comparison: on corpus grammars the
+    exact recorded manifestation is required, so a different completeness
+    defect in the same class is still reported"""
+    from ..core import stable_hash
+    p, clean = pins()
+    if stable_hash([case["g"], case["table"], case["max_len"]]) in clean:
+        ctx.fail(kind + "-on-grammar-recorded-as-complete", **details)
+    pin = p.get(stable_hash([case["g"], case["table"], text]))
+    if pin is not None:
+        now = [str(details.get("have")), str(details.get("want"))]
+        if now != pin:
+            ctx.fail(kind + "-differs-from-recorded-finding", recorded=pin, **details)
+    ctx.known("D1", kind, **details)
+
+
 def nullable_goto_cycle(table, nullable):
     """signature of finding D1: the LR automaton has a cycle along gotos over
     nullable non-terminals"""
@@ -84,7 +115,7 @@ def run_case(case, ctx):
         if out.kind != "ok":
             if d1 and out.kind == "syntax":
                 # all derivations lost: the extreme form of finding D1
-                ctx.known("D1", "sentence-not-accepted", outcome=out.kind, **info)
+                d1_known(ctx, case, text, "sentence-not-accepted", have=0, want="?", **info)
                 continue
             ctx.fail("sentence-not-accepted", outcome=out.kind, error=repr(out.exc), **info)
         forest = out.value
@@ -101,7 +132,7 @@ def run_case(case, ctx):
             n, loop = G.forest_len(forest)
             if loop or n < want:
                 if d1:
-                    ctx.known("D1", "fewer-trees-than-derivations", have=n, want=want, **info)
+                    d1_known(ctx, case, text, "fewer-trees-than-derivations", have=n, want=want, **info)
                     continue
                 ctx.fail("fewer-trees-than-derivations", have=n, want=want, **info)
             continue
@@ -117,7 +148,8 @@ def run_case(case, ctx):
         if missing:
             m = sorted(missing, key=repr)[0]
             if d1:
-                ctx.known("D1", "missing-derivation", missing=repr(m), have=len(got), want=len(refset), **info)
+                d1_known(ctx, case, text, "missing-derivation", missing=repr(m),
+                         have=len(refset & got), want=len(refset), **info)
                 continue
             ctx.fail("missing-derivation", missing=repr(m), have=len(got), want=len(refset), **info)
         if got - refset:
@@ -183,8 +215,18 @@ def enum_tiny(tier):
     return it()
 
 
+def enum_epsilon(tier):
+    def it():
+        for i, g in enumerate(gen.epsilon_family()):
+            if CFG.from_json(g).is_cyclic():
+                continue
+            yield {"g": g, "table": "LALR" if i % 2 else "SLR", "lex": "L0", "fill": [""], "max_len": 4}
+    return it()
+
+
 SUBCHECKS = [
     SubCheck("classics", run_case, enumerate=enum_classics),
+    SubCheck("epsilon-family-exhaustive", run_case, enumerate=enum_epsilon),
     SubCheck("tiny-exhaustive", run_case, enumerate=enum_tiny),
     SubCheck("random-L0", run_case, strategy=strat_l0, examples={"quick": 6400, "thorough": 60000}),
     SubCheck("random-L0-larger", run_case, strategy=strat_l0_big, examples={"quick": 1600, "thorough": 16000}),
